@@ -45,6 +45,81 @@ struct pool_policy
     {
         ::new (where) object(PP.ns, PP.bs);
     }
+    //=== deliberately invalid calls (C16) ===//
+    // 0..3: release the free node at list position 0..3 again, 4: the last free node, 5: the middle one,
+    // 6: (small pools) a pointer into a chunk header, 7: a pointer above all blocks, 8..10: inside a live node at offset 1..3
+    static int nbad()
+    {
+        return 11;
+    }
+    static std::string bad_kind(int i)
+    {
+        return i <= 5 ? "double_free" : i <= 7 ? "foreign_pointer" : "misaligned_pointer";
+    }
+    template <class W>
+    static u8* bad_ptr(W& w, int s, int i)
+    {
+        auto& o = asys<pool_policy>::obj(s);
+        if (i <= 5)
+        {
+            if (!list_kind<list_t>::double_free_checked)
+                return nullptr;
+            std::vector<u8*> fr;
+            collect_free(o.free_list_, fr);
+            if (fr.empty())
+                return nullptr;
+            if (i <= 3)
+                return std::size_t(i) < fr.size() ? fr[std::size_t(i)] : nullptr;
+            if (i == 4)
+                return fr.size() > 4 ? fr.back() : nullptr;
+            return fr.size() > 6 ? fr[fr.size() / 2] : nullptr;
+        }
+        if (!list_kind<list_t>::is_small || !cfg_ptr)
+            return nullptr;
+        if (i == 6)
+        {
+            // first chunk's header (inside the pool's block, not node memory)
+            if (w.h.up.nblk == 0)
+                return nullptr;
+            return w.arena + w.h.up.blk[0].off + fm::detail::memory_block_stack::implementation_offset() + 1;
+        }
+        if (i == 7)
+            return w.arena + CP().arena - 8; // never part of a block in these configurations
+        if (w.h.sh.n == 0 || std::size_t(i - 7) >= o.node_size())
+            return nullptr;
+        return w.arena + w.h.sh.v[0].off + (i - 7);
+    }
+    template <class W>
+    static std::string bad_name(W& w, int s, int i)
+    {
+        u8* p = bad_ptr(w, s, i);
+        return fmt("deallocate_node(%s at offset %ld)", i <= 5 ? "already free node" : i <= 7 ? "pointer outside the pool's nodes" : "pointer inside a node",
+                   p ? long(p - w.arena) : -1L);
+    }
+    template <class W>
+    static bool bad_enabled(W& w, int s, int i)
+    {
+        u8* p = bad_ptr(w, s, i);
+        if (!p)
+            return false;
+        if (i == 7)
+        {
+            // must really be outside every block
+            return w.h.up.find_containing(w.h.up.offset_of(p), 1) < 0;
+        }
+        return true;
+    }
+    template <class W>
+    static void bad_call(W& w, int s, int i)
+    {
+        asys<pool_policy>::obj(s).deallocate_node(bad_ptr(w, s, i));
+    }
+    template <class W>
+    static u64 digest(W&, int s)
+    {
+        auto& o = asys<pool_policy>::obj(s);
+        return u64(o.capacity_left()) ^ (u64(o.arena_.size()) << 40);
+    }
     static bool fills_new()
     {
         return true;
